@@ -192,11 +192,16 @@ def _calls(ctx, group, layout):
         Q0 = _layout(ctx.array('q0', (1, 2, 2)), layout)
         Q1 = _layout(ctx.array('q1', (2, 2, 1)), layout)
         QQ = _tt(ctx, 'qq', [2, 2], 2, layout)
+        G1 = _layout(ctx.array('g1', (1, 2, 1)), layout)
         return [lambda: T.core_dot(G, R), lambda: T.core_dot(G, R, ltr=False), lambda: T.core_stab(G), lambda: T.core_stab(G, 3),
                 lambda: T.core_qtt_to_tt([Q0, Q1]), lambda: T.qtt_to_tt(QQ, 2),
                 lambda: T.core_qtt_to_tt([Q0]), lambda: T.qtt_to_tt(QQ, 1),
                 lambda: T.core_dot_inv(G, R), lambda: T.core_dot_inv(G, R, ltr=False),
-                lambda: T.core_dot_maxvol(G, R, ind=np.array([0, 3])), lambda: T.core_dot_maxvol(G, R, ind=np.array([1, 2]), ltr=False)]
+                lambda: T.core_dot_maxvol(G, R, ind=np.array([0, 3])), lambda: T.core_dot_maxvol(G, R, ind=np.array([1, 2]), ltr=False),
+                # a number in place of the matrix (Python float / int), also on a core with boundary ranks
+                # (a number stands for a 1 x 1 matrix: the bond it is applied to has rank 1)
+                lambda: T.core_dot(Q1, 2.5), lambda: T.core_dot(Q0, 3, ltr=False),
+                lambda: T.core_dot(G1, 2.5), lambda: T.core_dot(G1, 1.0, ltr=False)]
     if group == 'tensors_grid':
         v = ctx.real('v')
         sh = _layout(vec(ctx, 's', 2), layout)
@@ -249,7 +254,7 @@ def _calls(ctx, group, layout):
     raise KeyError(group)
 
 
-N_STEPS = {'act': 38, 'core': 12, 'tensors_grid': 16, 'func': 18, 'anova_sample': 4, 'optima': 11}
+N_STEPS = {'act': 38, 'core': 16, 'tensors_grid': 16, 'func': 18, 'anova_sample': 4, 'optima': 11}
 
 
 def h_templates(ctx, group, layout, step):
@@ -336,6 +341,7 @@ def h_concrete_layouts(ctx, layout):
         Ac = teneva.func_int([L(G) for G in teneva.rand([3, 3, 3], 2, seed=9)])
         teneva.als_func(X, L(rng.normal(size=12)), Ac, nswp=1)
         teneva.als_func(X, L(rng.normal(size=12)), Ac, nswp=1, n_max=3); teneva.als_func(X, L(rng.normal(size=12)), Ac, nswp=1, n_max=5)
+        teneva.als_func(X, L(rng.normal(size=12)), Ac, nswp=1, update_sol=1e-2); teneva.als_func(X, L(rng.normal(size=12)), Ac, nswp=2, update_sol=0.5, lamb=1e-2)
         teneva.anova_func(X[:, :2], L(rng.normal(size=12)), 3)
         Y1 = [L(rng.normal(size=(1, 4, 1))), L(rng.normal(size=(1, 4, 1)))]
         Xn = L(np.cos(np.pi * np.arange(4) / 3))
